@@ -225,6 +225,8 @@ func runC18(e *Env) {
 		r.Unknown("E7.seteq", "profiler", "", "main not found")
 		return
 	}
+	checkELFArch(e, p)
+	checkOutputOpen(e, p)
 	// ---------------- E7: the emitted list as a set expression
 	si := newSetInterp(p, load.PkgProfiler)
 	ems := profileEmitters(p)
